@@ -196,7 +196,7 @@ func (g *Gen) ok(e Expr) Expr {
 			g.feat("cmp.folded-through-let")
 		}
 	}
-	if b, isBin := e.(*Binary); isBin && (b.Op == "+" || b.Op == "-" || c) && (b.L.T().Kind == KMat || b.R.T().Kind == KMat) && (Constish(b.L) || Constish(b.R)) {
+	if b, isBin := e.(*Binary); isBin && (b.Op == "+" || b.Op == "-" || c || (Constish(b.L) && Constish(b.R))) && (b.L.T().Kind == KMat || b.R.T().Kind == KMat) && (Constish(b.L) || Constish(b.R)) {
 		if !g.on("const.mat-binary") {
 			return nil
 		}
